@@ -1,4 +1,4 @@
-import PikaVerif.Lemmas.Rw3
+import PikaVerif.Lemmas.Rw4
 /-!
 # C04 — async_rw_mutex: exclusive writers, grouped readers, request-order grants
 
@@ -102,6 +102,62 @@ theorem C04_value_outlives_held (s : St) (hr : Reachable s) (a : Nat) (ha : Held
   have hi := inv_of_accepted hlog
   obtain ⟨c, hc⟩ := ha
   exact C04_value_outlives s ⟨log, hlog⟩ a (lt_of_acc hi (by rw [hc]; simp)) (by rw [hc]; simp)
+
+/-- **Every access observes all earlier modifications.**  While access `a` is held, the version
+    of the wrapped value (`s.ver`; the acceptor accepts `readv t a v` only with `v = s.ver`, see
+    `C04_value_events`) is exactly the number of modifications made through the accesses of the
+    groups up to and including `a`'s group; every access of an earlier group has been released,
+    so those modifications are complete; and no access of a later group has modified the value. -/
+theorem C04_sees_writes (s : St) (hr : Reachable s) (a : Nat) (ha : Held s a) :
+    s.ver = sumTo s.na (fun b => if s.grp b ≤ s.grp a then s.wr b else 0) ∧
+    (∀ b, b < s.na → s.grp b < s.grp a → s.acc b = .released) ∧
+    (∀ b, s.grp a < s.grp b → s.wr b = 0) := by
+  obtain ⟨log, hlog⟩ := hr
+  obtain ⟨hi, hw⟩ := invW_of_accepted hlog
+  obtain ⟨ha1, ha2⟩ := held_lt hi ha
+  have hlater : ∀ b, s.grp a < s.grp b → s.wr b = 0 := by
+    intro b hlt
+    by_cases hb : b < s.na
+    · cases hz : s.wr b with
+      | zero => rfl
+      | succ k =>
+        have hp := hw.wrPost b (by omega)
+        have := granted_pred_released hi hb ha1 hp hlt
+        obtain ⟨c, hc⟩ := ha; rw [hc] at this; simp at this
+    · exact hw.wrOut b (by omega)
+  refine ⟨?_, fun b hb hlt => granted_pred_released hi ha1 hb ha2 hlt, hlater⟩
+  rw [hw.verSum]
+  apply sumTo_congr
+  intro b _
+  by_cases hle : s.grp b ≤ s.grp a
+  · simp [hle]
+  · simp [hle, hlater b (by omega)]
+
+/-- The value events of the acceptor: a read through access `a` is accepted only while `a` is held
+    and only with the current version; a write only through a held read-write access, and it
+    produces the next version. -/
+theorem C04_value_events (s s' : St) (t a v : Nat) :
+    (step s (.readv t a v) = some s' → Held s a ∧ v = s.ver) ∧
+    (step s (.write t a v) = some s' → Held s a ∧ IsRw s a ∧ v = s.ver + 1 ∧ s'.ver = v) := by
+  constructor
+  · intro h
+    simp only [step] at h
+    split at h
+    · rename_i c hx
+      split at h
+      · rename_i hv; exact ⟨⟨c, hx⟩, hv⟩
+      · simp at h
+    · simp at h
+  · intro h
+    simp only [step] at h
+    split at h
+    · rename_i c hx
+      split at h
+      · rename_i hv
+        simp only [Option.some.injEq] at h; subst h
+        exact ⟨⟨c, hx⟩, hv.1, hv.2, hv.2.symm⟩
+      · simp at h
+    · simp at h
 
 /-- the steps the implementation takes on its own once operations have been invoked -/
 def Internal : Ev → Prop
